@@ -221,8 +221,11 @@ def run_bbnoh_sequences(task):
                 continue          # only sequences that end in an observation
             nseq += 1
             try:
+                # a sequence that edits initial_conditions in place gets its own dictionary: the wrappers' default argument is ONE
+                # dictionary per class, so editing it through an instance would change every later default-constructed solver
+                # of this process (and made this task's observations depend on what ran before it)
                 s = hydro_more.bbnoh_build({"geometry": geom, "eos": tag, "guess": [5.0, 1.0, 1.0],
-                                            "density": 1, "velocity": -1, "pressure": 0})
+                                            "density": 1, "velocity": -1, "pressure": 0, "decoys": "ic" not in seq})
             except Inadmissible:
                 C["inadmissible_vectors"] = C.get("inadmissible_vectors", 0) + 1
                 continue
